@@ -748,6 +748,8 @@ Proof.
   unfold generate_pmt. cbn [ms_pcr_pid ms_streams ms_pmt_version ms_pmt_updated ms_pat_version ms_pat_cc ms_pmt_cc ms_pm_updated set_tables].
   destruct (stream_pid_in (ms_pcr_pid s) (ms_streams s)) eqn:Epcr; cbn [negb].
   2:{ intros H; inversion H; subst; clear H. intros _. left. exists E_pcr_pid. rewrite restore_set_tables. repeat split; reflexivity. }
+  destruct (pmt_size (ms_streams s) >? 1021 - 9) eqn:Esize.
+  { intros H; inversion H; subst; clear H. intros _. left. exists E_generic. rewrite restore_set_tables. repeat split; reflexivity. }
   destruct (next_version (ms_pmt_version s) (ms_pmt_updated s)) as [pmtv mver] eqn:Emv.
   change (pmt_section (set_tables s patv (ms_pmt_version s) (wrappingCounter_inc_st (ms_pat_cc s)) (ms_pmt_cc s) false (ms_pmt_updated s)) mver)
     with (pmt_section s mver).
